@@ -1,4 +1,5 @@
 import Labella.Model.Render
+import Labella.Model.Pipeline
 import Labella.Proofs.Rounding
 import Labella.Proofs.RenderLemmas
 import Mathlib.Algebra.Order.Field.Rat
@@ -6,6 +7,8 @@ import Mathlib.Tactic.Ring
 import Mathlib.Tactic.Linarith
 import Mathlib.Tactic.NormNum
 import Labella.Props.C01
+import Labella.Proofs.PipelineLemmas
+import Labella.Proofs.PipelineEval
 /-! # C08 — drawn label boxes are pairwise disjoint and sit on the chosen side of the axis
 
 Along the axis disjointness follows from the C01 separation (label spacing ≥ 3 absorbs 1 unit of position rounding
@@ -121,5 +124,143 @@ theorem c01_gives_separation (o : Layout.ROpts) (a b : Layout.LItem × ℚ) (res
   have h2 := h.1.2
   simp only [Layout.gap, C01.halfDivisor_eq] at h2
   linarith
+
+/-! ### end to end: `Timeline.compute` + the emitters, composed (`Model/Pipeline.lean`) -/
+section EndToEnd
+open Labella.Pipeline Labella.Layout
+
+/-- **C08 end to end.**  For EVERY list of data (axis positions and padded drawn sizes ≥ 0), every direction, every engine configuration
+with a label spacing of at least the default 3 (any algorithm, bounds, density, stub width ≥ 0, line spacing ≥ 0) and a layer gap ≥ 1:
+every datum gets exactly one box; of two boxes of one layer the earlier one ends before the later one begins (up to the solver's
+tolerance `eps` ≈ 1e-10 per step between them); every box lies on the side of the axis named by the direction, more than `layerGap − 1`
+from it; boxes of a farther layer lie wholly beyond those of nearer layers.  Hence no two boxes intersect. -/
+theorem pipeline_boxes (dir : Dir) (layerGap : ℚ) (fo : FOpts) (items : List PItem)
+    (hns : 3 ≤ fo.nodeSpacing) (hls : 0 ≤ fo.lineSpacing) (hsw : 0 ≤ fo.stubWidth) (hlg : 1 ≤ layerGap)
+    (hsz : ∀ it ∈ items, 0 ≤ it.w ∧ 0 ≤ it.h) :
+    ((drawn dir layerGap fo items).map (·.id)).Perm (List.range items.length) ∧
+    (∀ a ∈ drawn dir layerGap fo items, ∀ b ∈ drawn dir layerGap fo items, a.layer = b.layer → a.idx < b.idx →
+      if dir.horizontalAxis then a.box.ox + a.box.w - Layout.eps * ((b.idx - a.idx : Nat) : ℚ) < b.box.ox
+      else a.box.oy + a.box.h - Layout.eps * ((b.idx - a.idx : Nat) : ℚ) < b.box.oy) ∧
+    (∀ a ∈ drawn dir layerGap fo items, onSideB dir (layerGap - 1) a.box = true) ∧
+    (∀ a ∈ drawn dir layerGap fo items, ∀ b ∈ drawn dir layerGap fo items, a.layer < b.layer →
+      (a.box.span dir).2 ≤ (b.box.span dir).1) := by
+  have hnh : 0 ≤ (ropt dir layerGap items).nodeHeight := nodeHeight_nonneg dir items
+  refine ⟨drawn_ids_perm dir layerGap fo items, ?_, ?_, ?_⟩
+  · intro a ha b hb hl hi
+    obtain ⟨_, hla, hwa, hha, hwida, _, hba⟩ := drawn_node dir layerGap fo items a ha
+    obtain ⟨_, hlb, hwb, hhb, hwidb, _, hbb⟩ := drawn_node dir layerGap fo items b hb
+    have hsep := drawn_sep dir layerGap fo items (by linarith) hls hsw hsz a b ha hb hl hi
+    have htol : 0 ≤ Layout.eps * ((b.idx - a.idx : Nat) : ℚ) := mul_nonneg C01.eps_nonneg (Nat.cast_nonneg _)
+    have key := boxes_disjoint_along_axis (ropt dir layerGap items) a.node b.node fo.nodeSpacing
+      (Layout.eps * ((b.idx - a.idx : Nat) : ℚ)) (by rw [hla, hlb, hl])
+      (by
+        change if dir.horizontalAxis then a.node.width = a.node.w else a.node.width = a.node.h
+        rw [hwida, hwa, hha]; unfold along; split <;> rfl)
+      (by
+        change if dir.horizontalAxis then b.node.width = b.node.w else b.node.width = b.node.h
+        rw [hwidb, hwb, hhb]; unfold along; split <;> rfl)
+      hns htol hsep
+    rw [hba, hbb]
+    exact key
+  · intro a ha
+    obtain ⟨_, _, _, _, _, _, hba⟩ := drawn_node dir layerGap fo items a ha
+    have hs := drawn_size_nonneg dir layerGap fo items hsz a ha
+    rw [hba]
+    exact side_of_axis (ropt dir layerGap items) a.node hnh (by change 0 ≤ layerGap; linarith) hs.1 hs.2
+      (drawn_thick dir layerGap fo items a ha)
+  · intro a ha b hb hl
+    obtain ⟨_, hla, _, _, _, _, hba⟩ := drawn_node dir layerGap fo items a ha
+    obtain ⟨_, hlb, _, _, _, _, hbb⟩ := drawn_node dir layerGap fo items b hb
+    rw [hba, hbb]
+    exact layers_nested' (ropt dir layerGap items) a.node b.node hnh hlg (by rw [hla, hlb]; exact hl)
+      (drawn_thick dir layerGap fo items a ha) (drawn_thick dir layerGap fo items b hb)
+      (drawn_size_nonneg dir layerGap fo items hsz a ha) (drawn_size_nonneg dir layerGap fo items hsz b hb)
+
+/-- … in particular no two boxes intersect by more than the accumulated solver tolerance: shrinking every box by `eps · n` (n = number of
+items of its layer, stubs included — about 1e-8 for a hundred items) along the axis makes them pairwise disjoint.  Stated directly: for two
+different data, the boxes are separated along the axis (same layer) or across it (different layers). -/
+theorem pipeline_boxes_disjoint (dir : Dir) (layerGap : ℚ) (fo : FOpts) (items : List PItem)
+    (hns : 3 ≤ fo.nodeSpacing) (hls : 0 ≤ fo.lineSpacing) (hsw : 0 ≤ fo.stubWidth) (hlg : 1 ≤ layerGap)
+    (hsz : ∀ it ∈ items, 0 ≤ it.w ∧ 0 ≤ it.h) :
+    ∀ a ∈ drawn dir layerGap fo items, ∀ b ∈ drawn dir layerGap fo items, a.id ≠ b.id →
+      (a.layer ≠ b.layer ∧ ((a.box.span dir).2 ≤ (b.box.span dir).1 ∨ (b.box.span dir).2 ≤ (a.box.span dir).1)) ∨
+      (a.layer = b.layer ∧ a.idx ≠ b.idx ∧
+        (if dir.horizontalAxis then
+            (a.box.ox + a.box.w - Layout.eps * (((max a.idx b.idx) - (min a.idx b.idx) : Nat) : ℚ) < b.box.ox ∨
+             b.box.ox + b.box.w - Layout.eps * (((max a.idx b.idx) - (min a.idx b.idx) : Nat) : ℚ) < a.box.ox)
+         else
+            (a.box.oy + a.box.h - Layout.eps * (((max a.idx b.idx) - (min a.idx b.idx) : Nat) : ℚ) < b.box.oy ∨
+             b.box.oy + b.box.h - Layout.eps * (((max a.idx b.idx) - (min a.idx b.idx) : Nat) : ℚ) < a.box.oy))) := by
+  obtain ⟨_, hsame, _, hnest⟩ := pipeline_boxes dir layerGap fo items hns hls hsw hlg hsz
+  intro a ha b hb hid
+  rcases Nat.lt_trichotomy a.layer b.layer with hl | hl | hl
+  · exact Or.inl ⟨Nat.ne_of_lt hl, Or.inl (hnest a ha b hb hl)⟩
+  · have hidx : a.idx ≠ b.idx := fun h => hid (drawn_place_inj dir layerGap fo items a b ha hb hl h)
+    refine Or.inr ⟨hl, hidx, ?_⟩
+    rcases Nat.lt_or_gt_of_ne hidx with hi | hi
+    · have e : max a.idx b.idx - min a.idx b.idx = b.idx - a.idx := by
+        rw [Nat.max_eq_right (Nat.le_of_lt hi), Nat.min_eq_left (Nat.le_of_lt hi)]
+      have := hsame a ha b hb hl hi
+      rw [e]
+      split
+      · rename_i hc; rw [if_pos hc] at this; exact Or.inl this
+      · rename_i hc; rw [if_neg hc] at this; exact Or.inl this
+    · have e : max a.idx b.idx - min a.idx b.idx = a.idx - b.idx := by
+        rw [Nat.max_eq_left (Nat.le_of_lt hi), Nat.min_eq_right (Nat.le_of_lt hi)]
+      have := hsame b hb a ha hl.symm hi
+      rw [e]
+      split
+      · rename_i hc; rw [if_pos hc] at this; exact Or.inr this
+      · rename_i hc; rw [if_neg hc] at this; exact Or.inr this
+  · exact Or.inl ⟨Nat.ne_of_gt hl, Or.inr (hnest b hb a ha hl)⟩
+
+/-! #### non-vacuity: the C06 example (6 data, a tie, both bounds, three layers, label spacing 3), sizes attached, layer gap 10 -/
+
+/-- direction `up`: extents along the axis (`w`) are the widths of `C06.permExL1`, thicknesses (`h`) differ -/
+def pipelineExUp : List PItem := [⟨5, 8, 4⟩, ⟨5, 8, 4⟩, ⟨9, 6, 3⟩, ⟨10, 7, 4⟩, ⟨20, 9, 2⟩, ⟨22, 5, 4⟩]
+/-- direction `left`: the same data turned (the extent along the axis is now `h`) -/
+def pipelineExLeft : List PItem := [⟨5, 4, 8⟩, ⟨5, 4, 8⟩, ⟨9, 3, 6⟩, ⟨10, 4, 7⟩, ⟨20, 2, 9⟩, ⟨22, 4, 5⟩]
+
+/-- (`Box` derives no `DecidableEq`) -/
+local instance boxDecEq : DecidableEq Box := fun a b =>
+  decidable_of_iff (a.ox = b.ox ∧ a.oy = b.oy ∧ a.w = b.w ∧ a.h = b.h) (by cases a; cases b; simp)
+
+/-- both lists hand the engine the labels of the C06 example, and satisfy the hypotheses of `pipeline_boxes` with its options -/
+theorem pipelineEx_hyps :
+    (labelsOf .up pipelineExUp).map (fun l => (l.ideal, l.width)) = C06.permExL1.map (fun l => (l.ideal, l.width)) ∧
+    (labelsOf .left pipelineExLeft).map (fun l => (l.ideal, l.width)) = C06.permExL1.map (fun l => (l.ideal, l.width)) ∧
+    3 ≤ C06.permExOpts.nodeSpacing ∧ 0 ≤ C06.permExOpts.lineSpacing ∧ 0 ≤ C06.permExOpts.stubWidth ∧ (1 : ℚ) ≤ 10 ∧
+    (∀ it ∈ pipelineExUp, 0 ≤ it.w ∧ 0 ≤ it.h) ∧ (∀ it ∈ pipelineExLeft, 0 ≤ it.w ∧ 0 ≤ it.h) := by
+  decide +kernel
+
+-- direction `up`: what `drawn` yields as (layer, place in the layer, datum, box) — the boxes hang above the axis (negative y), layer by
+-- layer 14 = layerGap + nodeHeight apart, origins truncated (label 3: 14 − 7/2 = 10.5 ↦ 10) — and no two of the boxes intersect
+example :
+    (drawn .up 10 C06.permExOpts pipelineExUp).map (fun d => (d.layer, d.idx, d.id, d.box)) =
+      [(0, 3, 3, ⟨10, -14, 7, 4⟩), (0, 5, 5, ⟨23, -14, 5, 4⟩),
+       (1, 2, 2, ⟨7, -28, 6, 3⟩), (1, 3, 4, ⟨15, -28, 9, 2⟩),
+       (2, 0, 0, ⟨0, -42, 8, 4⟩), (2, 1, 1, ⟨11, -42, 8, 4⟩)] ∧
+    pairwiseDisjointB ((drawn .up 10 C06.permExOpts pipelineExUp).map (·.box)) = true := by
+  -- `List.mergeSort` does not reduce in the kernel: evaluate the equal pipeline `drawn'` (over `compute'`, stable insertion sort)
+  rw [← drawn'_eq]
+  decide +kernel
+
+-- direction `left`: the boxes lie left of the axis (negative x), their far edge — not their origin — on the layer line
+example :
+    (drawn .left 10 C06.permExOpts pipelineExLeft).map (fun d => (d.layer, d.idx, d.id, d.box)) =
+      [(0, 3, 3, ⟨-14, 10, 4, 7⟩), (0, 5, 5, ⟨-14, 23, 4, 5⟩),
+       (1, 2, 2, ⟨-27, 7, 3, 6⟩), (1, 3, 4, ⟨-26, 15, 2, 9⟩),
+       (2, 0, 0, ⟨-42, 0, 4, 8⟩), (2, 1, 1, ⟨-42, 11, 4, 8⟩)] ∧
+    pairwiseDisjointB ((drawn .left 10 C06.permExOpts pipelineExLeft).map (·.box)) = true := by
+  rw [← drawn'_eq]
+  decide +kernel
+
+-- … and the theorem applies to them
+example := pipeline_boxes_disjoint .up 10 C06.permExOpts pipelineExUp pipelineEx_hyps.2.2.1 pipelineEx_hyps.2.2.2.1
+  pipelineEx_hyps.2.2.2.2.1 pipelineEx_hyps.2.2.2.2.2.1 pipelineEx_hyps.2.2.2.2.2.2.1
+example := pipeline_boxes_disjoint .left 10 C06.permExOpts pipelineExLeft pipelineEx_hyps.2.2.1 pipelineEx_hyps.2.2.2.1
+  pipelineEx_hyps.2.2.2.2.1 pipelineEx_hyps.2.2.2.2.2.1 pipelineEx_hyps.2.2.2.2.2.2.2
+
+end EndToEnd
 
 end Labella.C08
